@@ -124,6 +124,13 @@ fn set_regs(pid: i32, regs: &libc::user_regs_struct) {
     pt(libc::PTRACE_SETREGS, pid, 0, regs as *const _ as usize);
 }
 
+fn write_mem(pid: i32, addr: u64, data: &[u8]) -> bool {
+    let local = libc::iovec { iov_base: data.as_ptr() as *mut libc::c_void, iov_len: data.len() };
+    let remote = libc::iovec { iov_base: addr as *mut libc::c_void, iov_len: data.len() };
+    let n = unsafe { libc::process_vm_writev(pid, &local, 1, &remote, 1, 0) };
+    n == data.len() as isize
+}
+
 fn read_mem(pid: i32, addr: u64, len: usize) -> Vec<u8> {
     let mut buf = vec![0u8; len];
     if len == 0 || addr == 0 {
@@ -287,6 +294,11 @@ struct RunCtx<'a> {
     emul_gran: i64,
     last_read: Option<(usize, i32)>,
     nevents: u64,
+    /// directory-listing emulation: getdents results are permuted into this order of (model-style) names; readdir order is
+    /// unspecified, so every permutation is a legal kernel behaviour.  ["<reverse>"] reverses the kernel's order.
+    emul_listorder: Option<Vec<String>>,
+    /// real temp-file name -> the model's name for it ("t<participant>x<operation index>")
+    tmodel: HashMap<String, String>,
 }
 
 impl<'a> RunCtx<'a> {
@@ -1154,6 +1166,9 @@ fn advance(t: &mut Tracee, ctx: &mut RunCtx, sched: bool, stop_after_ret: bool) 
             if let Some(l) = &call.path {
                 if is_private_dir(&l.d) {
                     t.own_temps.insert(format!("{}/{}", l.d, l.n));
+                    if let Some(real) = Path::new(&l.abs).file_name() {
+                        ctx.tmodel.insert(real.to_string_lossy().to_string(), format!("t{}x{}", t.part, t.opi));
+                    }
                 }
             }
         }
@@ -1339,6 +1354,34 @@ fn record_exit(t: &mut Tracee, ctx: &mut RunCtx, call: &Call, rv: i64, injected:
             }
         }
         "getdents" => {
+            if ok && rv > 0 && ctx.emul_listorder.is_some() {
+                let order = ctx.emul_listorder.clone().unwrap();
+                let b = read_mem(pid, call.bufaddr, rv as usize);
+                let mut recs: Vec<(usize, Vec<u8>)> = Vec::new();
+                let mut o = 0usize;
+                while o + 19 <= b.len() {
+                    let reclen = u16::from_le_bytes(b[o + 16..o + 18].try_into().unwrap()) as usize;
+                    if reclen == 0 || o + reclen > b.len() {
+                        break;
+                    }
+                    let nb = &b[o + 19..o + reclen];
+                    let end = nb.iter().position(|x| *x == 0).unwrap_or(nb.len());
+                    let name = String::from_utf8_lossy(&nb[..end]).to_string();
+                    let mname = ctx.tmodel.get(&name).cloned().unwrap_or(name);
+                    let rank = if order.len() == 1 && order[0] == "<reverse>" {
+                        usize::MAX - recs.len()
+                    } else {
+                        order.iter().position(|x| *x == mname).unwrap_or(order.len() + recs.len())
+                    };
+                    recs.push((rank, b[o..o + reclen].to_vec()));
+                    o += reclen;
+                }
+                if o == b.len() {
+                    recs.sort_by_key(|r| r.0);
+                    let nb: Vec<u8> = recs.into_iter().flat_map(|r| r.1).collect();
+                    write_mem(pid, call.bufaddr, &nb);
+                }
+            }
             if ok {
                 let b = read_mem(pid, call.bufaddr, rv as usize);
                 let mut names = Vec::new();
@@ -1674,6 +1717,8 @@ fn run_once(job: &Value, runno: u64, actor: &str, work: &str, out: &mut dyn Writ
         emul_gran: job["emul"]["gran"].as_i64().unwrap_or(0),
         last_read: None,
         nevents: 0,
+        emul_listorder: job["emul"]["listorder"].as_array().map(|a| a.iter().map(|x| x.as_str().unwrap_or("").to_string()).collect()),
+        tmodel: HashMap::new(),
     };
     // pre-made directories (owned by the unprivileged user)
     if let Some(ds) = job["mkdirs"].as_array() {
